@@ -21,7 +21,7 @@ Lemma balanced_flat_map {A} (f : A -> list event) l : (forall x, balanced (f x))
 Proof. intros H. induction l as [|x l IH]; [intros d; reflexivity|]. cbn. apply balanced_app; auto. Qed.
 
 Definition flat_event (e : event) : Prop :=
-  match e with EOpen _ | EClose _ | ELoadGroup _ _ => False | _ => True end.
+  match e with EOpen _ | EClose _ | ELoadGroup _ _ _ _ => False | _ => True end.
 Lemma balanced_map_flat {A} (f : A -> event) l : (forall x, flat_event (f x)) -> balanced (map f l).
 Proof.
   intros H. induction l as [|x l IH]; intros d; cbn [map]; [reflexivity|].
@@ -75,7 +75,7 @@ Lemma filter_map_none {A} (g : event -> bool) (f : A -> event) l : (forall x, g 
 Proof. intros H. induction l as [|x l IH]; cbn; [reflexivity|]. rewrite H, IH. reflexivity. Qed.
 
 Lemma loads_no (g : event -> bool) u ds b :
-  (forall x y, g (ELoadGroup x y) = false) -> (forall s, g (EOpen s) = false) -> (forall s, g (EClose s) = false) ->
+  (forall x y c s, g (ELoadGroup x y c s) = false) -> (forall s, g (EOpen s) = false) -> (forall s, g (EClose s) = false) ->
   (forall a c d e, g (EPolygon a c d e) = false) -> filter g (bar_loads u ds b) = [].
 Proof.
   intros H1 H2 H3 H4. unfold bar_loads. destruct (pb_has_loads b); [| reflexivity].
@@ -158,6 +158,41 @@ Proof.
   cbn [app filter is_polygon]. rewrite filter_app. cbn. rewrite app_nil_r.
   induction (pb_dloads b) as [|x xs IHx]; cbn; [reflexivity|]. rewrite filter_app, polygon_sel, IHx. reflexivity.
 Qed.
+
+(* one group per loaded bar, at the bar's scaled start point and turned along the bar: its x axis has the direction
+   (x2 - x1, y2 - y1) / length, so that what is drawn at local (x, 0) lies on the bar at distance x from its start *)
+Definition is_loadgroup e := match e with ELoadGroup _ _ _ _ => true | _ => false end.
+Definition load_group_of (u : Q) (b : pbar_in) : event :=
+  ELoadGroup (pb_x1 b * u) (pb_y1 b * u) ((pb_x2 b - pb_x1 b) / pb_len b) ((pb_y2 b - pb_y1 b) / pb_len b).
+
+Lemma loadgroup_sel u ds b : filter is_loadgroup (bar_loads u ds b) = if pb_has_loads b then [load_group_of u b] else [].
+Proof.
+  unfold bar_loads. destruct (pb_has_loads b); [| reflexivity].
+  cbn [app filter is_loadgroup]. rewrite filter_app. cbn [filter is_loadgroup]. rewrite app_nil_r.
+  rewrite filter_flat_map_nil; [reflexivity|].
+  intros l. unfold load_polygon. destruct (pd_local l); [destruct (pd_term l)|]; reflexivity.
+Qed.
+
+Theorem one_turned_group_per_loaded_bar (p : plot_in) :
+  let u := units_scale (pl_bars p) in
+  sel is_loadgroup (plot_events p) = flat_map (fun b => if pb_has_loads b then [load_group_of u b] else []) (pl_bars p).
+Proof.
+  intros u. unfold sel, plot_events. fold u. destruct (canvas_size p) as [w h].
+  repeat (rewrite filter_app || cbn [app filter is_loadgroup]).
+  rewrite (filter_map_none is_loadgroup); [| reflexivity].
+  rewrite (filter_map_none is_loadgroup); [| reflexivity].
+  rewrite (filter_flat_map_nil is_loadgroup (support_events u)); [| intros n; apply supports_no; reflexivity].
+  cbn. rewrite !app_nil_r. clearbody u. generalize (pl_dscale p) as ds. intros ds.
+  induction (pl_bars p) as [|b l IH]; cbn; [reflexivity|]. rewrite filter_app, IH, loadgroup_sel. reflexivity.
+Qed.
+
+(* the point drawn at local (x, 0) of a bar's load group is the point of the bar at distance x / u from its start *)
+Lemma load_group_lies_along_the_bar (u : Q) (b : pbar_in) (t : Q) : ~ pb_len b == 0 ->
+  let c := (pb_x2 b - pb_x1 b) / pb_len b in let s := (pb_y2 b - pb_y1 b) / pb_len b in
+  let x := u * (pb_len b * t) in
+  pb_x1 b * u + c * x == u * (pb_x1 b + t * (pb_x2 b - pb_x1 b)) /\
+  pb_y1 b * u + s * x == u * (pb_y1 b + t * (pb_y2 b - pb_y1 b)).
+Proof. intros Hl c s x. unfold c, s, x. split; field; exact Hl. Qed.
 
 (* a local load's polygon spans its start and end positions along the bar *)
 Lemma polygon_spans u ds b l x0 x1 y0 y1 :
